@@ -232,3 +232,364 @@ func ruleBfRangeCarry(c *eng.Ctx) {
 	})
 	c.Check(wide && narrow == "", R, "font.(*CMap).addMultiUnitRange#increment", fn.Pos(), "the destination advances as a 16-bit unit", "the destination of a bfrange is advanced by byte arithmetic ("+narrow+"): codes past a 0xFF low byte decode 0x100 too low")
 }
+
+// fromModuleGlobal: v is (an element of) a module package-level variable, reached without a copy.
+func fromModuleGlobal(v ssa.Value, depth int) *ssa.Global {
+	if depth > 6 {
+		return nil
+	}
+	switch x := v.(type) {
+	case *ssa.Global:
+		if x.Pkg != nil && strings.HasPrefix(x.Pkg.Pkg.Path(), eng.ModPath) {
+			return x
+		}
+	case *ssa.UnOp:
+		if x.Op == token.MUL {
+			return fromModuleGlobal(x.X, depth+1)
+		}
+	case *ssa.Lookup:
+		return fromModuleGlobal(x.X, depth+1)
+	case *ssa.Extract:
+		return fromModuleGlobal(x.Tuple, depth+1)
+	case *ssa.IndexAddr:
+		return fromModuleGlobal(x.X, depth+1)
+	case *ssa.Index:
+		return fromModuleGlobal(x.X, depth+1)
+	case *ssa.FieldAddr:
+		return fromModuleGlobal(x.X, depth+1)
+	case *ssa.Field:
+		return fromModuleGlobal(x.X, depth+1)
+	case *ssa.Slice:
+		return fromModuleGlobal(x.X, depth+1)
+	case *ssa.Phi:
+		for _, e := range x.Edges {
+			if g := fromModuleGlobal(e, depth+1); g != nil {
+				return g
+			}
+		}
+	}
+	return nil
+}
+
+// R3.4 [C03]
+func ruleGlobalTableAlias(c *eng.Ctx) {
+	const R = "R3.4-GLOBAL-TABLE-ALIAS"
+	c.Rule(R, "no map or slice that lives in a package-level table is stored into a field of a per-document object (it must be copied): the object's later writes would go into the shared table and change what every other document and goroutine sees", 0, 1)
+	for _, fn := range c.P.ModuleFuncs() {
+		if strings.HasPrefix(fn.Name(), "init") {
+			continue
+		}
+		n := 0
+		eng.Instrs(fn, true, func(in ssa.Instruction) {
+			st, ok := in.(*ssa.Store)
+			if !ok {
+				return
+			}
+			switch st.Val.Type().Underlying().(type) {
+			case *types.Map, *types.Slice:
+			default:
+				return
+			}
+			fa, ok := st.Addr.(*ssa.FieldAddr)
+			if !ok {
+				return
+			}
+			if fromModuleGlobal(fa.X, 0) != nil {
+				return // a field of the global itself
+			}
+			g := fromModuleGlobal(st.Val, 0)
+			if g == nil {
+				return
+			}
+			n++
+			fr, _ := eng.AsField(fa)
+			c.Viol(R, fmt.Sprintf("%s#%s<-%s", eng.FuncName(fn), fr.Field, g.Name()), st.Pos(), "field "+fr.Field+" is made to share the package-level table "+g.Name()+": writes through the field change the table for every other extraction")
+		})
+	}
+}
+
+// R19.9 [C19, C03]
+func ruleCheckerPerPass(c *eng.Ctx) {
+	const R = "R19.9-CHECKER-PER-PASS"
+	c.Rule(R, "an exclusionChecker belongs to one filtering pass: its mode is assigned only where it is constructed and no checker is kept in the Reader (a checker that survives a pass carries what it memoised in a stricter mode into a weaker one)", 2, 0)
+	ctor := c.P.Func("htmldoc.newExclusionChecker")
+	if ctor == nil {
+		c.Undec(R, "htmldoc.newExclusionChecker", token.NoPos, "anchor not found")
+		return
+	}
+	var badMode, kept []string
+	for _, fn := range c.P.ModuleFuncs() {
+		if fn.Pkg == nil || eng.ShortPath(fn.Pkg.Pkg.Path()) != "htmldoc" {
+			continue
+		}
+		eng.Instrs(fn, true, func(in ssa.Instruction) {
+			st, ok := in.(*ssa.Store)
+			if !ok {
+				return
+			}
+			fr, ok := eng.AsField(st.Addr)
+			if !ok {
+				return
+			}
+			if fr.Field == "mode" && strings.HasSuffix(fr.Struct, "exclusionChecker") && fn != ctor {
+				badMode = append(badMode, eng.FuncName(fn)+" at "+c.P.Pos(st.Pos()))
+			}
+			if strings.HasSuffix(eng.TypeName(st.Val.Type()), "htmldoc.exclusionChecker") && strings.HasSuffix(fr.Struct, "htmldoc.Reader") {
+				kept = append(kept, "Reader."+fr.Field+" at "+c.P.Pos(st.Pos()))
+			}
+		})
+	}
+	sort.Strings(badMode)
+	sort.Strings(kept)
+	c.Check(len(badMode) == 0, R, "htmldoc.exclusionChecker.mode#writers", ctor.Pos(), "mode is set by the constructor only", "the mode of an existing checker is changed ("+strings.Join(badMode, ", ")+"): state memoised under the old mode is used under the new one")
+	c.Check(len(kept) == 0, R, "htmldoc.Reader#keeps-checker", ctor.Pos(), "no checker outlives its pass", "a checker is kept in the Reader ("+strings.Join(kept, ", ")+")")
+}
+
+// R6.7 [C06]
+func ruleRealsViaParseFloat(c *eng.Ctx) {
+	const R = "R6.7-REALS-VIA-PARSEFLOAT"
+	c.Rule(R, "every real number either parser returns is the result of strconv.ParseFloat on the literal: a hand-made mantissa/power-of-ten conversion rounds twice and the two parsers stop agreeing on 16-19 digit literals", 2, 0)
+	for _, name := range []string{"contentstream.(*Parser).parseNumber", "core.(*Parser).parseNumber"} {
+		fn := c.P.Func(name)
+		if fn == nil {
+			c.Undec(R, name, token.NoPos, "anchor not found")
+			continue
+		}
+		n, bad := 0, ""
+		cluster := eng.Cluster(fn, 2)
+		for _, h := range cluster {
+			eng.Instrs(h, false, func(in ssa.Instruction) {
+				// conversions to core.Real: float64 -> Real (ChangeType / Convert) whose operand must come from ParseFloat
+				var x ssa.Value
+				switch v := in.(type) {
+				case *ssa.ChangeType:
+					if eng.TypeName(v.Type()) == "core.Real" {
+						x = v.X
+					}
+				case *ssa.Convert:
+					if eng.TypeName(v.Type()) == "core.Real" {
+						x = v.X
+					}
+				}
+				if x == nil {
+					return
+				}
+				n++
+				ok := false
+				arith := false
+				for w := range eng.SliceInter(x, nil, cluster) {
+					if ex, isEx := w.(*ssa.Extract); isEx {
+						if call, isCall := ex.Tuple.(*ssa.Call); isCall && eng.CalleeName(call) == "strconv.ParseFloat" {
+							ok = true
+						}
+					}
+					if b, isB := w.(*ssa.BinOp); isB {
+						if bt, isBasic := b.Type().Underlying().(*types.Basic); isBasic && bt.Info()&types.IsFloat != 0 {
+							arith = true
+						}
+					}
+				}
+				if !ok || arith {
+					bad = "real built by own arithmetic at " + c.P.Pos(in.Pos())
+				}
+			})
+		}
+		if n == 0 {
+			// integers only through this entry point is fine for the document parser (reals come from the lexer token)
+			c.Ok(R, name, fn.Pos(), "no real constructed here")
+			continue
+		}
+		c.Check(bad == "", R, name, fn.Pos(), "reals are strconv.ParseFloat results", bad+": values with many digits are rounded differently from the other parser")
+	}
+}
+
+// R10.9 [C10]
+func ruleCloseResetsFlags(c *eng.Ctx) {
+	const R = "R10.9-CLOSE-RESETS-FLAGS"
+	c.Rule(R, "every boolean lifecycle flag that ensureReader sets when it opens a reader is cleared again by Close: a flag left set makes the next operation skip opening and use the reader that Close just dropped", 2, 0)
+	open := c.P.Func("tabula.(*Extractor).ensureReader")
+	cl := c.P.Func("tabula.(*Extractor).Close")
+	if open == nil || cl == nil {
+		c.Undec(R, "tabula.(*Extractor).ensureReader", token.NoPos, "anchor not found")
+		return
+	}
+	flags := map[string]bool{}
+	for _, h := range eng.Cluster(open, 2) {
+		eng.Instrs(h, false, func(in ssa.Instruction) {
+			st, ok := in.(*ssa.Store)
+			if !ok {
+				return
+			}
+			fr, ok := eng.AsField(st.Addr)
+			if !ok || !strings.HasSuffix(fr.Struct, "tabula.Extractor") {
+				return
+			}
+			if cst, ok := st.Val.(*ssa.Const); ok && cst.Value != nil && cst.Value.ExactString() == "true" {
+				flags[fr.Field] = true
+			}
+		})
+	}
+	cleared := map[string]bool{}
+	for _, h := range eng.Cluster(cl, 2) {
+		eng.Instrs(h, false, func(in ssa.Instruction) {
+			st, ok := in.(*ssa.Store)
+			if !ok {
+				return
+			}
+			fr, ok := eng.AsField(st.Addr)
+			if !ok {
+				return
+			}
+			if cst, ok := st.Val.(*ssa.Const); ok && cst.Value != nil && cst.Value.ExactString() == "false" {
+				cleared[fr.Field] = true
+			}
+		})
+	}
+	names := keysOf(flags)
+	if len(names) == 0 {
+		c.Undec(R, "tabula.(*Extractor).ensureReader#flags", open.Pos(), "ensureReader sets no flag")
+		return
+	}
+	for _, f := range names {
+		c.Check(cleared[f], R, "tabula.(*Extractor).Close#"+f, cl.Pos(), "cleared by Close", "Close does not clear "+f+", which ensureReader sets: after a terminal operation the extractor believes its reader is still open")
+	}
+}
+
+// R13.7 [C13]
+func ruleSentenceIndexSteps(c *eng.Ctx) {
+	const R = "R13.7-NO-INDEX-SKIP"
+	c.Rule(R, "the rune loop of splitIntoSentences advances its index only in the loop header: an extra step inside the body (stepping over the character after a terminator) drops that character from every piece", 1, 0)
+	fn := c.P.Func("rag.splitIntoSentences")
+	if fn == nil {
+		c.Undec(R, "rag.splitIntoSentences", token.NoPos, "anchor not found")
+		return
+	}
+	n := 0
+	for _, h := range eng.Cluster(fn, 2) {
+		eng.Instrs(h, false, func(in ssa.Instruction) {
+			ph, ok := in.(*ssa.Phi)
+			if !ok || !isLoopCarried(ph) {
+				return
+			}
+			bt, ok := ph.Type().Underlying().(*types.Basic)
+			if !ok || bt.Info()&types.IsInteger == 0 {
+				return
+			}
+			// an index: used to index a slice/string
+			isIndex := false
+			for _, r := range *ph.Referrers() {
+				switch x := r.(type) {
+				case *ssa.IndexAddr:
+					if x.Index == ssa.Value(ph) {
+						isIndex = true
+					}
+				case *ssa.Index:
+					if x.Index == ssa.Value(ph) {
+						isIndex = true
+					}
+				case *ssa.BinOp:
+					for _, rr := range *x.Referrers() {
+						if ia, ok := rr.(*ssa.IndexAddr); ok && ia.Index == ssa.Value(x) {
+							isIndex = true
+						}
+					}
+				}
+			}
+			if !isIndex {
+				return
+			}
+			n++
+			// every back-edge value is phi+1 (one step); a value phi+2 or a nested step is a skip
+			bad := ""
+			for k, e := range ph.Edges {
+				if !ph.Block().Dominates(ph.Block().Preds[k]) {
+					continue
+				}
+				steps := 0
+				v := e
+				for depth := 0; depth < 6; depth++ {
+					if v == ssa.Value(ph) {
+						break
+					}
+					b, ok := v.(*ssa.BinOp)
+					if !ok || b.Op != token.ADD {
+						if p2, ok := v.(*ssa.Phi); ok {
+							// merged value: take the longest chain
+							best := 0
+							for _, e2 := range p2.Edges {
+								s2 := 0
+								w := e2
+								for w != ssa.Value(ph) {
+									bb, ok := w.(*ssa.BinOp)
+									if !ok || bb.Op != token.ADD {
+										break
+									}
+									s2++
+									w = bb.X
+								}
+								if s2 > best {
+									best = s2
+								}
+							}
+							steps += best
+						}
+						break
+					}
+					if k2, isC := eng.ConstInt(b.Y); isC && k2 > 1 {
+						steps += int(k2) - 1
+					}
+					steps++
+					v = b.X
+				}
+				if steps > 1 {
+					bad = fmt.Sprintf("the index advances %d positions on one trip at %s", steps, c.P.Pos(ph.Pos()))
+				}
+			}
+			c.Check(bad == "", R, fmt.Sprintf("%s#index%d", eng.FuncName(h), n), ph.Pos(), "one step per trip", bad+": a character is skipped without being written")
+		})
+	}
+	if n == 0 {
+		c.Ok(R, "rag.splitIntoSentences#range", fn.Pos(), "no hand-advanced index (range loop)")
+	}
+}
+
+// R14.8 [C14]
+func ruleExportNoEmptyShortcut(c *eng.Ctx) {
+	const R = "R14.8-EXPORT-EMPTY"
+	c.Rule(R, "Exporter.Export has no shortcut for an empty collection: zero chunks still produce the enclosing syntax of the format (`[]`, the CSV header), which is what parses back to zero records", 1, 0)
+	fn := c.P.Func("rag.(*Exporter).Export")
+	if fn == nil {
+		c.Undec(R, "rag.(*Exporter).Export", token.NoPos, "anchor not found")
+		return
+	}
+	bad := ""
+	for _, r := range eng.Returns(fn) {
+		if eng.GuardedBy(fn, r.Block(), func(f eng.Fact) bool {
+			op, x, y, ok := f.Cmp()
+			if !ok {
+				return false
+			}
+			for _, s := range [][2]ssa.Value{{x, y}, {y, x}} {
+				call, isCall := s[0].(*ssa.Call)
+				if !isCall {
+					continue
+				}
+				bi, isB := call.Call.Value.(*ssa.Builtin)
+				if !isB || bi.Name() != "len" {
+					continue
+				}
+				if _, isPar := call.Call.Args[0].(*ssa.Parameter); !isPar {
+					continue
+				}
+				k, isC := eng.ConstInt(s[1])
+				if isC && ((op == token.EQL && k == 0) || (op == token.LSS && k == 1) || (op == token.LEQ && k == 0)) {
+					return true
+				}
+			}
+			return false
+		}) {
+			bad = "return at " + c.P.Pos(r.Pos()) + " is taken because the collection is empty"
+		}
+	}
+	c.Check(bad == "", R, "rag.(*Exporter).Export#empty", fn.Pos(), "empty collections go through the format writer", bad+": nothing is written, which is not a well-formed document of the format")
+}
